@@ -71,7 +71,8 @@ def gen_scenario(rng, component=None, kinds=('int', 'str', 'str', 'tuple', 'fd')
         elif comp == 'laostar':
             params = dict(rao=rng.random() < 0.8, rno=True, h=_upper_bound(problem))
         elif comp == 'semimdp':
-            params = dict(nsim=rng.choice((2, 5)), optname=rng.choice(('o', 'go-left', 'opt_7')), max_steps=rng.choice((5, 50)), pseed=rng.randrange(10 ** 6))
+            params = dict(nsim=rng.choice((2, 5)), optname=rng.choice(('o', 'go-left', 'opt_7')), max_steps=rng.choice((5, 50)), pseed=rng.randrange(10 ** 6),
+                          planned=rng.random() < 0.4)
         elif comp in ('rollout_mdp', 'evaluate_mdp'):
             params = dict(cap=rng.choice((5, 20)), nsim=rng.choice((2, 4)), pseed=rng.randrange(10 ** 6), tabular=rng.random() < 0.5)
     return dict(component=comp, problem=problem, params=params, seed=seed)
@@ -365,6 +366,12 @@ def run_component(sc, problem, algo, env):
             def __repr__(self):
                 return f"Opt({self.name})"
         o = Opt(p['optname'])
+        if p.get('planned'):
+            # a sub-goal option planned by value iteration, created WITHOUT a name (as the library's own examples do)
+            from msdm.core.semimdp.option import PlanToSubgoalOption
+            from msdm.algorithms.valueiteration import ValueIteration
+            o = PlanToSubgoalOption(mdp=problem, initial_states=[x for x in states if x not in term] or states[:1], subgoals=sorted(term, key=lambda x: str(canon(x))),
+                                    planner=ValueIteration(max_iterations=2000), include_mdp_absorbing_states=True, max_steps=p['max_steps'])
         smdp = algo if algo is not None else sm.SemiMarkovDecisionProcess(mdp=problem, options=[o], n_option_simulations=p['nsim'], seed=seed)
         out = []
         from msdm.core.exceptions import AlgorithmException
